@@ -50,3 +50,15 @@ claim("C03",
   "Decides the outcome tables: the status decision of create (fresh / existing / overdue x strict x key match), complete (not found / pending before or at-after the deadline / completed x strict x key match x state) and read is extracted path by path from the control-flow graph and must equal a table written from the statement; Key.Match is true only for two non-nil equal keys; the only writes reachable from the existing-promise branches are the forced time-out group; the promise insert is ON CONFLICT DO NOTHING and the task insert of create-with-task is conditional on it in both backends; a lost guarded write retries. Not decided: retries racing with the original, histories.",
   "CFG path enumeration into (condition atoms -> status) tables compared semantically with spec functions (forking over open atoms, assertion facts, enum exclusivity); truth-table check of Key.Match; SQL spec comparison",
   "DESIGN.md §5 C03")
+claim("C06",
+  "Decides exactly the regressions named in why_tests_cant: success is returned by Execute only after a successful Commit and every error path rolls back (must-pass-through on go/cfg, both backends); store.Process builds completions only after Execute returned and the workers enqueue only Process's results; every statement of a batch runs on the batch's *sql.Tx; each multi-effect operation (completion group, routed create, schedule firing) is ONE Transaction; Config.Reset defaults to false and Reset/os.Remove/DROP TABLE are reachable only from Stop under `if config.Reset`; the sqlite path defaults to a file; schema statements are IF NOT EXISTS; serve stops API then AIO only after Loop returned; coroutine code keeps no package state and each background coroutine starts from a store submission. No process is started or killed; engine durability is trusted.",
+  "go/cfg must-fact dataflow (commit/rollback), who-may-call and receiver checks on database/sql sites, Transaction command-list evaluation, struct-tag and call-site guard checks, shutdown-order check in cmd/serve",
+  "DESIGN.md §5 C06")
+claim("C11",
+  "Decides the progress MECHANISM, not a bound: the re-add condition in Tick is exactly (not done) AND interval elapsed AND (no previous instance OR previous completed), with bookkeeping; each background coroutine returns (nil, nil) on every path, has only bounded loops, no self call; each sweep reads a LIMITed batch bound to its configured size with exactly the overdue predicate and answers each record with a command that leaves the predicate; a selected record is skipped only for internal or transient reasons (known finding F17 otherwise); every dispatched submission completes exactly once, also in the simulated AIO. Not decided: number of cycles, fairness, failure sequences.",
+  "truth-table check of the re-add condition, structural termination checks, SQL/command templates, classification of `continue` reasons by producing call, exactly-once path counting",
+  "DESIGN.md §5 C11")
+claim("C12",
+  "Decides exactly-once discharge for 33 owners of a one-shot obligation (API/AIO enqueue and their wrappers, Dispatch, the kernel's SQE/CQE loops, the AddOnRequest wrapper, every subsystem and plugin Enqueue (true iff sent), store/router/echo/sender/plugin workers, the Done closure, the simulated AIO flush, the front-end reply channel of capacity 1): on every go/cfg path the obligation is invoked or handed to exactly one consumer, boolean consumers discharging on their true edge only; Loop returns only under Done(); Done's definitions; serve's stop order. Reports known finding F14 (unsynchronised shutdown flag). Not decided: arrival patterns, goroutine scheduling, gocoro's scheduler.",
+  "path-count dataflow over {0,1,>=2} on go/cfg with select statements rewritten per clause and edge-sensitive boolean consumers; lock-scope check for the shutdown flag",
+  "DESIGN.md §5 C12")
